@@ -137,7 +137,9 @@ impl FinalityTracker {
     /// Returns a [`FinalizationEvent`] that contains information about newly finalized slots.
     pub(super) fn mark_fast_finalized(&mut self, block: BlockId) -> FinalizationEvent {
         let (slot, block_hash) = &block;
-        debug_assert!(*slot >= self.first_unpruned_slot);
+        // NOTE: No `debug_assert!` on the slot here, unlike in the other `mark_*` functions:
+        //       a single vote can create the notarization and the fast-finalization certificate
+        //       at once, and handling the former may already have finalized and pruned the slot.
         if *slot < self.first_unpruned_slot {
             return FinalizationEvent::default();
         }
